@@ -33,7 +33,7 @@ ASSUMPTIONS = [
     "titles come from a pool whose class names do not clash with names the module imports (title hazards are C12's subject)",
     "ref6 (own $ref resolver) judges the source documents",
 ]
-BUDGET = {"quick": 130, "thorough": 2200}
+BUDGET = {"quick": 240, "thorough": 2600}
 
 observe.register_formats()
 CFG = docs.DCfg()
